@@ -148,7 +148,8 @@ class Report:
                 out.append(f"      via {step}")
         for rule, msg in self.errors:
             out.append(f"ANALYSIS-ERROR property={self.prop} rule={rule} {msg}")
-        code = 2 if self.errors else (1 if new else 0)
+        # a definite violation takes precedence over an incomplete analysis elsewhere
+        code = 1 if new else (2 if self.errors else 0)
         if code == 0:
             out.append(f"PASS property={self.prop} tier={self.tier}")
         if not self.quiet:
